@@ -150,6 +150,7 @@ def run(ctx):
               'preprocessor parameters, ITML bounds and LSML weights as caller arrays) + 2 directed histories per '
               'estimator; distinct by (estimator, op sequence, world); non-trivial = history contains a refit, a '
               'clone/pickle or a handed-out object used after a refit' % (depth_mc, depth, per_est))
+  ctx.rule += " Plus the executions of the repository's own test suite recorded by the pytest tracing plugin (one case per test / per estimator object; distinct by test id)."
   pairs = core.generate(MOD, rs)
   for g, cfgname in (('thr', 'TR_Lifecycle_thr.cfg'), ('nothr', 'TR_Lifecycle_nothr.cfg')):
     sub = [(r, t) for r, t in pairs if (r['est'] in lifecycle.PAIR_CLASSIFIERS) == (g == 'thr')]
